@@ -4,7 +4,7 @@
    events is an interleaving, and EPrepare false / EAnchor false are the fault placements.  The
    theorems quantify over every event list. *)
 From Coq Require Import List ZArith Bool Arith Permutation.
-From SV Require Import Parser.Protocol Writer.Machine Writer.Invariants Gen.Kernels GenTie.Cutter.
+From SV Require Import Parser.Protocol Writer.Machine Writer.Invariants Writer.LivenessLemmas Writer.Liveness Gen.Kernels GenTie.Cutter.
 Import ListNotations.
 Local Open Scope Z_scope.
 
@@ -79,3 +79,118 @@ Theorem C16_code_batch_size : forall p (pending max : nat),
   /\ gen_cutter_maxOps p = MaxOperationCount p.
 Proof. exact (fun p a b => conj (cutter_batchSize_tie p a b) (cutter_maxOps_tie p)). Qed.
 Print Assumptions C16_code_batch_size.
+
+Local Close Scope Z_scope.
+
+(* PROGRESS (ends up in exactly one anchored batch).  The writer thread has exactly one enabled event in every state: its continuation is determined *)
+Theorem C16_writer_thread_is_deterministic :
+  forall (max : nat) (o : oracle) (s : wstate) (e : event),
+         stuck s = false ->
+         (forall a : qop, e <> EAdd a) ->
+         stuck (wstep max s e) = false ->
+         match next_ev o s with
+         | Some e' => same_kind e e' = true
+         | None => exists f : bool, e = ETick f
+         end.
+Proof. exact next_ev_is_the_enabled_event. Qed.
+Print Assumptions C16_writer_thread_is_deterministic.
+
+(* from every reachable state, whatever the handler and the anchor writer answer, the tick in progress returns to Idle *)
+Theorem C16_tick_always_completes :
+  forall (max : nat) (o : oracle) (q : list qop) (es : list event),
+         let s := run max (init q) es in
+         let s' := run max (init q) (es ++ finish_events max o s) in
+         wpc s' = Idle /\ stuck s' = stuck s /\ accepted s' = accepted s /\ work s' <= work s.
+Proof. exact thread_finishes. Qed.
+Print Assumptions C16_tick_always_completes.
+
+(* a failure-free tick that is forced (batch timeout) or finds a full batch strictly shrinks the queue (measured after the deferred operations were re-queued) and settles at least one operation *)
+Theorem C16_tick_progress :
+  forall (max : nat) (o : oracle) (f : bool) (q : list qop) (es : list event),
+         let s := run max (init q) es in
+         0 < max ->
+         failure_free o ->
+         wpc s = Idle ->
+         queue s <> [] ->
+         f = true \/ max <= Datatypes.length (queue s) ->
+         let s' := run max (init q) (es ++ tick_events max o f s) in
+         wpc s' = Idle /\
+         stuck s' = stuck s /\
+         accepted s' = accepted s /\
+         Datatypes.length (queue s') < Datatypes.length (queue s) /\ settled s < settled s'.
+Proof. exact tick_progress. Qed.
+Print Assumptions C16_tick_progress.
+
+(* a tick whose anchor write fails leaves queue, anchored batches and discarded operations exactly as they were *)
+Theorem C16_failed_tick_is_transparent :
+  forall (max : nat) (o : oracle) (f : bool) (q : list qop) (es : list event),
+         let s := run max (init q) es in
+         anchor_fails o ->
+         wpc s = Idle ->
+         let s' := run max (init q) (es ++ tick_events max o f s) in
+         queue s' = queue s /\
+         anchored s' = anchored s /\
+         discarded s' = discarded s /\
+         wpc s' = Idle /\ stuck s' = stuck s /\ accepted s' = accepted s.
+Proof. exact failed_tick_transparent. Qed.
+Print Assumptions C16_failed_tick_is_transparent.
+
+(* from ANY reachable state (mid-tick, client submissions anywhere before), finishing the tick and then as many failure-free batch timeouts as there are pending operations empties the queue, and every accepted operation is then in exactly one anchored batch or discarded as expired *)
+Theorem C16_every_accepted_operation_is_eventually_anchored :
+  forall (max : nat) (q : list qop) (es : list event) (o0 : oracle) (os : list oracle),
+         let s := run max (init q) es in
+         let s1 := run max s (finish_events max o0 s) in
+         0 < max ->
+         Forall failure_free os ->
+         work s <= Datatypes.length os ->
+         all_settled s (run max (init q) (es ++ finish_events max o0 s ++ drain_events max os s1)).
+Proof. exact drain_from_anywhere. Qed.
+Print Assumptions C16_every_accepted_operation_is_eventually_anchored.
+
+(* the number of operations ever accepted bounds the number of batch timeouts needed *)
+Theorem C16_drain_bound_is_the_number_accepted :
+  forall (max : nat) (q : list qop) (es : list event) (o0 : oracle) (os : list oracle),
+         let s := run max (init q) es in
+         let s1 := run max s (finish_events max o0 s) in
+         0 < max ->
+         Forall failure_free os ->
+         Datatypes.length (accepted s) <= Datatypes.length os ->
+         all_settled s (run max (init q) (es ++ finish_events max o0 s ++ drain_events max os s1)).
+Proof. exact drain_bound_accepted. Qed.
+Print Assumptions C16_drain_bound_is_the_number_accepted.
+
+(* any finite prefix of failing ticks followed by failure-free batch timeouts still drains *)
+Theorem C16_failures_only_delay :
+  forall (max : nat) (q : list qop) (es : list event) (pre : list (oracle * bool))
+           (os : list oracle),
+         let s := run max (init q) es in
+         let s1 := run max s (ticks_events max pre s) in
+         0 < max ->
+         Forall failure_free os ->
+         wpc s = Idle ->
+         Datatypes.length (queue s) <= Datatypes.length os ->
+         all_settled s (run max (init q) (es ++ ticks_events max pre s ++ drain_events max os s1)).
+Proof. exact drain_after_failures. Qed.
+Print Assumptions C16_failures_only_delay.
+
+(* the hypotheses are needed: monitor ticks never cut an undersized batch (this is also the property's last clause) *)
+Theorem C16_only_timeouts_or_full_batches_drain :
+  forall (max : nat) (q : list qop) (es : list event) (os : list oracle),
+         let s := run max (init q) es in
+         wpc s = Idle ->
+         Datatypes.length (queue s) < max ->
+         let s' := run max (init q) (es ++ ticks_events max (unforced os) s) in
+         queue s' = queue s /\ anchored s' = anchored s /\ discarded s' = discarded s.
+Proof. exact unforced_never_drains. Qed.
+Print Assumptions C16_only_timeouts_or_full_batches_drain.
+
+(* and an anchor writer that always fails keeps every operation queued (nothing is skipped, nothing is lost) *)
+Theorem C16_persistent_failure_blocks :
+  forall (max : nat) (q : list qop) (es : list event) (l : list (oracle * bool)),
+         let s := run max (init q) es in
+         wpc s = Idle ->
+         Forall (fun of : oracle * bool => anchor_fails (fst of)) l ->
+         let s' := run max (init q) (es ++ ticks_events max l s) in
+         queue s' = queue s /\ anchored s' = anchored s /\ discarded s' = discarded s.
+Proof. exact failing_never_drains. Qed.
+Print Assumptions C16_persistent_failure_blocks.
